@@ -5,6 +5,7 @@ PROP = dict(
     extract=["editor"],
     lean_targets=["Chewing.Props.C05", "Chewing.Props.C05Bound"],
     runs=[dict(bin="comp"), dict(bin="editor"),
+          dict(bin="editor", args=["--bfs", "all"], tag="editor-bfs", timeout=1500, timeout_thorough=20000),
           dict(bin="editor", args=["--script", "c05"], tag="editor-c05-overshoot"),
           dict(bin="capi_props", tag="capi_props", args=["--histories", "300", "--calls", "40"], args_thorough=["--histories", "6000", "--calls", "40"])],
     scope=comp_scope("cedc", "ed"),
@@ -19,7 +20,7 @@ PROP = dict(
          "(= chewing_set_ChiEngMode) or the character form changed - followed by every later site that restores a saved "
          "cursor: symbol-table insert, Esc from another list, a choice, cancel_selecting; FX3: fuzzy engine + N x the same initial key beyond "
          "the limit; FX4: simple engine + (syllable, cancel_selecting) cycles beyond the limit), recomputed by the model from the implementation's own full "
-         "pre-state and compared on the complete post-state; distinct = distinct record text",
+         "pre-state and compared on the complete post-state; distinct = distinct record text Run editor-bfs (round 3, `editor --bfs all`): breadth-first exploration of the REAL editor on small closed configurations, one `ed` record per (reachable state, operation of the alphabet) with this property's oracle evaluated on every step; the configurations that closed are exhaustive ties (coverage.exhaustive_closed_worlds; Props/EditorTie.lean lifts them to every operation list over the alphabet), the others a breadth-first sample.",
     trusted_base=["no kernel enumeration: all theorems are structural (induction over operation lists / histories, case "
                   "analysis over the arms of the state machine, simp/omega over lists)",
                   "hook H1 (Editor::verif_snapshot, read-only) and the CompositionEditor forwarding probe"],
